@@ -7,6 +7,7 @@ statement (vlib/ref.py: accepts_condition / accepts_ahb_lenient) says what must 
 """
 
 import os
+import re
 from contextvars import ContextVar
 
 from hypothesis import strategies as st
@@ -17,7 +18,7 @@ from vlib.core import Stage, fail
 ID = "C02"
 MANIFEST = {
     "category": "exploration",
-    "text": "Generated-input search over strings: well-formed expressions rendered from ASTs (40%), near misses made by 1-3 character edits of them (40%) and arbitrary text incl. exotic code points (20%) go through parse_condition_expression_to_tree, the AHB parser, the resolver and is_valid_expression. A hand-written tokenizer + recursive-descent recogniser decides accept/reject for the condition parser (both directions); for the resolver, strict C09 forms must be accepted, anything returned must be fully resolved and acceptable to a lenient AHB recogniser whose condition parts pass the strict recogniser, and everything else must raise SyntaxError; no other exception type may escape anywhere. One slice is enumerated completely: every string of length <= 4 (thorough: <= 5) over the 12-character alphabet '[]()1PUB. MX' (22 621 / 271 453 strings) through all entry points. The thorough tier adds a coverage-guided atheris stage driving the same oracle.",
+    "text": "Generated-input search over strings: well-formed expressions rendered from ASTs (40%), near misses made by 1-3 character edits of them (40%) and arbitrary text incl. exotic code points (20%) go through parse_condition_expression_to_tree, the AHB parser, the resolver and is_valid_expression. A hand-written tokenizer + recursive-descent recogniser decides accept/reject for the condition parser (both directions); for the resolver, strict C09 forms must be accepted, anything returned must be fully resolved and acceptable to a lenient AHB recogniser whose condition parts pass the strict recogniser, and everything else must raise SyntaxError; no other exception type may escape anywhere. One slice is enumerated completely: every string of length <= 4 (thorough: <= 5) over the 12-character alphabet '[]()1PUB. MX' (22 621 / 271 453 strings) through all entry points. The thorough tier adds a coverage-guided atheris stage driving the same oracle. Near misses also include word-level edits: one run of letters replaced by a word that is nearly a modal mark (Moll, Kuss, Mus, Musss ...).",
     "note": "Trusted: the reference recogniser in vlib/ref.py (cross-validated against the parser on 10^5 strings with zero disagreements on the unchanged tree), Hypothesis, atheris. Two narrow unspecified zones where only the no-foreign-exception clause is checked: strings that are well-formed only if a repeatability may be written with non-ASCII decimal digits (the grammar's own \\d), and AHB strings containing U+017F / U+212A, which re.IGNORECASE folds onto the s / k of the modal marks. Keys and package keys must be ASCII integers. Process configuration by shard (vlib/sut.py; recorded in replay files): plain / parse caches preheated beyond their size / warnings attributed to ahbicht raised as errors / logging fully enabled with every record rendered.",
     "technique": "property-based testing / fuzzing of the parsers against an independent reference recogniser (differential, both directions)",
 }
@@ -235,6 +236,23 @@ def atom_edit(draw, text):
     return text[: start + 1] + body + text[end - 1 :]
 
 
+_WORD_SPAN = re.compile(r"[A-Za-z\u017f]+")
+NEAR_WORDS = [
+    # an initial of one modal mark with the tail of another one, truncated / extended / doubled marks, look-alikes
+    "Moll", "Mann", "Suss", "Sann", "Kuss", "Koll", "moll", "KUSS", "Mus", "Mu", "Sol", "So", "Kan", "Ka", "Musss", "Solll",
+    "Kannn", "Mussoll", "MM", "SK", "Mu\u00df", "Nuss", "Darf", "Y", "XO", "UU", "Ms", "Sl", "Kn", "M.", "Muss.", "Mus s",
+]  # fmt: skip
+
+
+def word_edit(draw, text):
+    """replace one run of letters (an indicator, or an operator letter) by a word that is nearly a modal mark"""
+    spans = [m.span() for m in _WORD_SPAN.finditer(text)]
+    if not spans:
+        return text
+    start, end = draw(st.sampled_from(spans))
+    return text[:start] + draw(st.sampled_from(NEAR_WORDS)) + text[end:]
+
+
 def strategy(tier):
     max_atoms = BOUNDS[tier]["max_atoms"]
 
@@ -247,7 +265,8 @@ def strategy(tier):
             return {"class": "wellformed", "kind": kind, "s": text, "replace_time": replace_time}
         if pick < 8:
             kind, text = draw(wellformed(max(2, max_atoms // 2)))
-            mutated = atom_edit(draw, text) if draw(st.sampled_from(range(3))) == 0 else mutate(draw, text)
+            how = draw(st.sampled_from(range(6)))
+            mutated = atom_edit(draw, text) if how < 2 else (word_edit(draw, text) if how == 2 else mutate(draw, text))
             if mutated == text:
                 return {"class": "wellformed", "kind": kind, "s": text, "replace_time": replace_time}
             return {"class": "nearmiss", "kind": kind, "s": mutated, "replace_time": replace_time}
